@@ -1,9 +1,387 @@
-/- WS.Driver.OpsH2 — op group H2 (see AGENTS_GUIDE.md). Return `none` for ops not handled here. -/
+/- WS.Driver.OpsH2 — op group H2 (C09 C10 C11, head phase of C17).
+   Encodings (all arguments are single space-free tokens):
+     text          hex of UTF-8, `-` = empty
+     optional text `~` = None, else text
+     list of text  `_` = empty list, else `,`-joined text items
+     script        `_` = no events, else `,`-joined items: hex chunk | `T` timeout | `R` reset
+     tail          `E` (end of stream) | `T` (silence: every further recv times out)
+     headers dict  `_` or `;`-joined `name=value` (text items)
+-/
 import WS.Driver.Util
+import WS.Base.Sha1
+import WS.Base.Base64
+import WS.Spec.HttpRequest
+import WS.Spec.Handshake
+import WS.Spec.TlsPolicy
+import WS.Model.Connect
 namespace WS.Driver.H2
-open WS WS.Driver
+open WS WS.Driver WS.PyH2 WS.H2 WS.Model.Http WS.Model.Handshake WS.Model.Connect
+
+/-! ### the concrete digest -/
+
+/-- `base64(sha1((key ++ GUID).encode("utf-8")))` -/
+def acceptOf (key : Str) : Str :=
+  Base64.encode (Sha1.sha1 (encodeUtf8 (key ++ Gen.guid.toList)))
+
+/-! ### argument parsing -/
+
+def pStr (s : String) : Option Str := (parseStr s).map String.toList
+
+def pOptStr (s : String) : Option (Option Str) :=
+  if s == "~" then some none else (pStr s).map some
+
+def pList {α : Type} (f : String → Option α) (sep : String) (s : String) : Option (List α) :=
+  if s == "_" then some [] else (s.splitOn sep).mapM f
+
+def pStrList (s : String) : Option (List Str) := pList pStr "," s
+
+def pBool (s : String) : Option Bool :=
+  if s == "1" then some true else if s == "0" then some false else none
+
+def pOptNat (s : String) : Option (Option Nat) :=
+  if s == "~" then some none else s.toNat?.map some
+
+def pEvents (s : String) : Option (List HEv) :=
+  (pList (fun it =>
+    if it == "T" then some [HEv.timeout]
+    else if it == "R" then some [HEv.reset]
+    else (parseBytes it).map (fun bs => bs.map HEv.byte)) "," s).map List.flatten
+
+def pTail (s : String) : Option Tail :=
+  if s == "E" then some .eof else if s == "T" then some .timeout else none
+
+def pDict (s : String) : Option Dict :=
+  pList (fun it => match it.splitOn "=" with
+    | [k, v] => match pStr k, pStr v with
+      | some k, some v => some (k, v)
+      | _, _ => none
+    | _ => none) ";" s
+
+def pExn (s : String) : Option HExn :=
+  match s with
+  | "CLOSED" => some .closed | "TIMEOUT" => some .timeout | "TRANSPORT" => some .transport
+  | "WSGENERIC" => some .wsgeneric | "PROXY" => some .proxy | "ADDRESS" => some .address
+  | "VALUEERROR" => some .valueError
+  | _ => none
+
+def pOutcome (s : String) : Option (Except HExn Unit) :=
+  if s == "ok" then some (.ok ()) else (pExn s).map .error
+
+/-- `A` | `L:<list>` | `D:<k=v;k=~>` -/
+def pHeaderOpt (s : String) : Option HeaderOpt :=
+  if s == "A" then some .absent
+  else match s.splitOn ":" with
+    | ["L", l] => (pStrList l).map .list
+    | ["D", d] =>
+      (pList (fun it => match it.splitOn "=" with
+        | [k, v] => match pStr k, pOptStr v with
+          | some k, some v => some (k, v)
+          | _, _ => none
+        | _ => none) ";" d).map .dict
+    | _ => none
+
+/-- seven tokens: host origin suppress header connection subprotocols cookie -/
+def pOpts : List String → Option Opts
+  | [h, og, so, hd, cn, sb, ck] =>
+    match pOptStr h, pOptStr og, pBool so, pHeaderOpt hd, pOptStr cn, pStrList sb, pOptStr ck with
+    | some h, some og, some so, some hd, some cn, some sb, some ck => some ⟨h, og, so, hd, cn, sb, ck⟩
+    | _, _, _, _, _, _, _ => none
+  | _ => none
+
+def pCert (s : String) : Option (Option CertReqs) :=
+  match s with
+  | "~" => some none | "N" => some (some .none) | "O" => some (some .optional)
+  | "R" => some (some .required) | _ => none
+
+/-- `cert:chk:cafile:capath:server_hostname:context`, chk ∈ ~ 0 1, context ∈ ~ n -/
+def pSslOpt (s : String) : Option SslOpt :=
+  match s.splitOn ":" with
+  | [c, k, f, p, h, x] =>
+    let chk : Option (Option Bool) := if k == "~" then some none else (pBool k).map some
+    match pCert c, chk, pOptStr f, pOptStr p, pOptStr h, pOptNat x with
+    | some c, some k, some f, some p, some h, some x => some ⟨c, k, f, p, h, x⟩
+    | _, _, _, _, _, _ => none
+  | _ => none
+
+/-- `bundle:isfile:isdir` -/
+def pTlsEnv (s : String) : Option TlsEnv :=
+  match s.splitOn ":" with
+  | [b, f, d] => match pOptStr b, pBool f, pBool d with
+    | some b, some f, some d => some ⟨b, f, d⟩
+    | _, _, _ => none
+  | _ => none
+
+/-- inverse of `oPolicy` -/
+def pCa (s : String) : Option CaSource :=
+  if s == "unset" then some .unset
+  else if s == "default" then some .default
+  else if s.startsWith "loc(" && s.endsWith ")" then
+    let inner := String.ofList ((s.toList.drop 4).dropLast)
+    match inner.splitOn "," with
+    | [a, b] => match pOptStr a, pOptStr b with
+      | some a, some b => some (.locations a b)
+      | _, _ => none
+    | _ => none
+  else none
+
+def pPolicy (s : String) : Option Policy :=
+  match s.splitOn "/" with
+  | ["fresh", v, c, ca, sni] =>
+    match pCert v, pBool c, pCa ca, pStr sni with
+    | some (some v), some c, some ca, some sni => some (.fresh v c ca sni)
+    | _, _, _, _ => none
+  | ["user", n, sni] =>
+    match n.toNat?, pStr sni with
+    | some n, some sni => some (.user n sni)
+    | _, _ => none
+  | _ => none
+
+/-- timeline token of the real run -> event (payloads are irrelevant to the ordering Spec) -/
+def pTimelineEv (t : String) : Option Ev :=
+  match t.splitOn ":" with
+  | ["D", i, sec, host] => match i.toNat?, pBool sec, pStr host with
+    | some i, some sec, some host => some (.dial i ⟨host, 0, [], sec⟩)
+    | _, _, _ => none
+  | ["A", i] => i.toNat?.map (fun i => .adopt i ⟨[], 0, [], false⟩)
+  | ["W", i, pol, ok] => match i.toNat?, pPolicy pol, pBool ok with
+    | some i, some pol, some ok => some (.wrap i pol ok)
+    | _, _, _ => none
+  | ["Iw", i] => i.toNat?.map (fun i => .io i (.write []))
+  | ["Ir", i] => i.toNat?.map (fun i => .io i (.recv 1))
+  | ["Pw", i] => i.toNat?.map (fun i => .plain i (.write []))
+  | ["Pr", i] => i.toNat?.map (fun i => .plain i (.recv 1))
+  | ["C", i] => i.toNat?.map (fun i => .close i)
+  | _ => none
+
+/-! ### rendering -/
+
+def oStr (s : Str) : String := strOut (String.ofList s)
+def oOptStr : Option Str → String
+  | none => "~"
+  | some s => oStr s
+def oDict (d : Dict) : String :=
+  if d.isEmpty then "_" else ";".intercalate (d.map (fun kv => oStr kv.1 ++ "=" ++ oStr kv.2))
+def oOptInt : Option Int → String
+  | none => "None"
+  | some n => toString n
+
+def oCert : CertReqs → String
+  | .none => "N" | .optional => "O" | .required => "R"
+
+def oCa : CaSource → String
+  | .unset => "unset" | .default => "default"
+  | .locations f p => s!"loc({oOptStr f},{oOptStr p})"
+
+def oPolicy : Policy → String
+  | .fresh v c ca sni => s!"fresh/{oCert v}/{b2s c}/{oCa ca}/{oStr sni}"
+  | .user c sni => s!"user/{c}/{oStr sni}"
+
+def oIo (tag : String) : IoEv → String
+  | .write bs => s!"{tag}w:{summarize bs}"
+  | .recv n => s!"{tag}r{n}"
+
+def oEv : Ev → String
+  | .dial i _ => s!"D{i}" | .adopt i _ => s!"A{i}" | .close i => s!"C{i}"
+  | .plain i e => oIo s!"P{i}" e
+  | .io i e => oIo s!"I{i}" e
+  | .wrap i p ok => s!"W{i}:{oPolicy p}:{b2s ok}"
+
+/-- run-length compress equal neighbours: `x*3` -/
+def rleAux : Option (String × Nat) → List String → List String
+  | none, [] => []
+  | some (x, k), [] => [if k = 1 then x else s!"{x}*{k}"]
+  | none, y :: ys => rleAux (some (y, 1)) ys
+  | some (x, k), y :: ys =>
+    if y == x then rleAux (some (x, k + 1)) ys
+    else (if k = 1 then x else s!"{x}*{k}") :: rleAux (some (y, 1)) ys
+
+def rle (l : List String) : List String := rleAux none l
+
+def oTrace (t : List String) : String := if t.isEmpty then "_" else ",".intercalate (rle t)
+
+def hasNonAscii (evs : List HEv) : Bool :=
+  evs.any (fun e => match e with | .byte b => b.toNat ≥ 128 | _ => false)
+
+/-- complete lines (ending in LF) among the bytes of the first `n` events. -/
+def consumedLines (evs : List HEv) (n : Nat) : List Bytes :=
+  let bs := (evs.take n).filterMap (fun e => match e with | .byte b => some b | _ => none)
+  let rec go : List UInt8 → Bytes → List Bytes
+    | [], _ => []
+    | b :: r, acc => if b = 10 then (acc.reverse ++ [b]) :: go r [] else go r (b :: acc)
+  go bs []
+
+/-- the model's answer is meaningful unless a *decodable* line with a non-ASCII character was
+    processed (Unicode strip / lower / int are not modelled). -/
+def unmodelled (evs : List HEv) (n : Nat) : Bool :=
+  match (consumedLines evs n).find? (fun l => l.any (fun b => b.toNat ≥ 128)) with
+  | some l => (decodeUtf8 l).isSome
+  | none => false
+
+def oReq (r : Spec.Http.Req) : String :=
+  oStr r.target ++ " " ++
+    (if r.headers.isEmpty then "_"
+     else ";".intercalate (r.headers.map (fun nv => oStr nv.1 ++ "=" ++ oStr nv.2)))
+
+/-! ### connect -/
+
+/-- `url>host:port:resource:secure` or `url>E:<EXN>`; `;`-joined -/
+def pUrlTable (s : String) : Option (List (Str × Except HExn UrlParts)) :=
+  pList (fun it => match it.splitOn ">" with
+    | [u, r] => match pStr u, r.splitOn ":" with
+      | some u, ["E", e] => (pExn e).map (fun e => (u, .error e))
+      | some u, [h, p, rs, sec] => match pStr h, p.toNat?, pStr rs, pBool sec with
+        | some h, some p, some rs, some sec => some (u, .ok ⟨h, p, rs, sec⟩)
+        | _, _, _, _ => none
+      | _, _ => none
+    | _ => none) ";" s
+
+/-- `0` | `1` | `1:user:pw` (pw may be `~`) -/
+def pProxy (s : String) : Option ProxyDec :=
+  match s.splitOn ":" with
+  | ["0"] => some ⟨false, none⟩
+  | ["1"] => some ⟨true, none⟩
+  | ["1", u, p] => match pStr u, pOptStr p with
+    | some u, some p => some ⟨true, some (u, p)⟩
+    | _, _ => none
+  | _ => none
+
+/-- `addr!tail!events!sendsLeft!wrap!rand!jar` -/
+def pDial (s : String) : Option Dial :=
+  match s.splitOn "!" with
+  | [a, t, ev, sl, w, r, j] =>
+    match pOutcome a, pTail t, pEvents ev, pOptNat sl, pOutcome w, parseBytes r, pStr j with
+    | some a, some t, some ev, some sl, some w, some r, some j => some ⟨a, ⟨ev, t, sl⟩, w, r, j⟩
+    | _, _, _, _, _, _, _ => none
+  | _ => none
+
+def pSock (s : String) : Option (Option Sock) :=
+  if s == "~" then some none
+  else match s.splitOn "!" with
+    | [t, ev, sl] => match pTail t, pEvents ev, pOptNat sl with
+      | some t, some ev, some sl => some (some ⟨ev, t, sl⟩)
+      | _, _, _ => none
+    | _ => none
+
+def oOut (o : Out) : String :=
+  let res := match o.res with | .ok _ => "ok" | .error e => e.toStr
+  let st := match o.obj.resp with | some r => toString r.status | none => "None"
+  let sub := match o.obj.resp with | some r => oOptStr r.subprotocol | none => "~"
+  let sk := match o.obj.sock with | some i => toString i | none => "None"
+  s!"{res} connected={b2s o.obj.connected} sock={sk} status={st} sub={sub} dials={o.dials} trace={oTrace (o.trace.map oEv)}"
 
 def ops : List String → Option String
+  | ["b64e", h] => (parseBytes h).map (fun bs => oStr (Base64.encode bs))
+  | ["b64d", s] => (pStr s).map (fun s => match Base64.decode s with
+      | some bs => "ok " ++ bytesOut bs
+      | none => "none")
+  | ["sha1", h] => (parseBytes h).map (fun bs => toHex (Sha1.sha1 bs))
+  | ["accept-of", k] => (pStr k).map (fun k => oStr (acceptOf k))
+  | ["m-read-headers", t, ev] =>
+    match pTail t, pEvents ev with
+    | some t, some ev =>
+      match readHeaders ⟨ev, t, none⟩ with
+      | (.ok h, s', n) =>
+        some (if unmodelled ev n then "unmodelled" else
+          s!"ok {oOptInt h.status} {oOptStr h.msg} {oDict h.headers} reads={n} left={(s'.inp.filter (fun e => match e with | .byte _ => true | _ => false)).length}")
+      | (.error e, _, n) =>
+        some (if unmodelled ev n then "unmodelled" else s!"exn {e.toStr} reads={n}")
+    | _, _ => none
+  | ["m-resp-headers", t, ev] =>
+    match pTail t, pEvents ev with
+    | some t, some ev =>
+      match getRespHeaders ⟨ev, t, none⟩ with
+      | (.ok (st, d), _, io) =>
+        some (if unmodelled ev io.length then "unmodelled" else s!"ok {st} {oDict d} io={oTrace (io.map (oIo ""))}")
+      | (.error e, _, io) =>
+        some (if unmodelled ev io.length then "unmodelled" else s!"exn {e.toStr} io={oTrace (io.map (oIo ""))}")
+    | _, _ => none
+  | ["m-validate", d, k, subs] =>
+    match pDict d, pStr k, pStrList subs with
+    | some d, some k, some subs =>
+      match validate acceptOf d k subs with
+      | (true, sp) => some s!"1 {oOptStr sp}"
+      | (false, _) => some "0"
+    | _, _, _ => none
+  | ["s-established", st, d, k, offered] =>
+    let status : Option (Option Int) := if st == "None" then some none else st.toInt?.map some
+    match status, pDict d, pStr k, pStrList offered with
+    | some status, some d, some k, some offered =>
+      some (match Spec.Handshake.firstFailing acceptOf ⟨status, d⟩ k offered with
+        | none => "1"
+        | some c => "0:" ++ c)
+    | _, _, _, _ => none
+  | "m-build-request" :: rs :: url :: host :: port :: rest =>
+    match rest.reverse with
+    | jar :: rand :: optsRev =>
+      match pStr rs, pStr url, pStr host, port.toNat?, pOpts optsRev.reverse, parseBytes rand, pStr jar with
+      | some rs, some url, some host, some port, some o, some rand, some jar =>
+        match getHandshakeHeaders rs url host port o rand jar with
+        | .ok (lines, key) => some s!"ok {oStr key} {bytesOut (encodeUtf8 (requestText lines))}"
+        | .error e => some s!"exn {e.toStr}"
+      | _, _, _, _, _, _, _ => none
+    | _ => none
+  | ["s-parse-request", h] =>
+    match parseBytes h with
+    | some bs =>
+      match decodeUtf8 bs with
+      | some s => match Spec.Http.parseRequest s with
+        | some r => some ("ok " ++ oReq r)
+        | none => some "none"
+      | none => some "none"
+    | none => none
+  | "s-expected-request" :: host :: port :: rs :: sec :: rest =>
+    match rest.reverse with
+    | jar :: rand :: optsRev =>
+      match pStr host, port.toNat?, pStr rs, pBool sec, pOpts optsRev.reverse, parseBytes rand, pStr jar with
+      | some host, some port, some rs, some sec, some o, some rand, some jar =>
+        some ("ok " ++ oReq (Spec.Http.expected ⟨host, port, rs, sec⟩ o rand jar))
+      | _, _, _, _, _, _, _ => none
+    | _ => none
+  | ["s-key-ok", k, r] =>
+    match pStr k, parseBytes r with
+    | some k, some r => some (b2s (Spec.Http.keyOk k r 16))
+    | _, _ => none
+  | ["m-tls-policy", o, e, h] =>
+    match pSslOpt o, pTlsEnv e, pStr h with
+    | some o, some e, some h =>
+      match Model.Tls.sslSocket o e h with
+      | .ok p => some (oPolicy p)
+      | .error x => some s!"exn {x.toStr}"
+    | _, _, _ => none
+  | ["s-tls-policy", o, e, h] =>
+    match pSslOpt o, pTlsEnv e, pStr h with
+    | some o, some e, some h =>
+      match Spec.Tls.tlsPolicy o e h with
+      | some p => some (oPolicy p)
+      | none => some "refused"
+    | _, _, _ => none
+  | ["s-order-ok", o, e, evs] =>
+    match pSslOpt o, pTlsEnv e, pList pTimelineEv ";" evs with
+    | some o, some e, some tr =>
+      let pol := fun host => Spec.Tls.tlsPolicy o e host
+      some (if !Spec.Tls.orderedB pol [] tr then "0:tls-before-data"
+            else if !Spec.Tls.wsNeverWrapped tr then "0:ws-never-wrapped"
+            else "1")
+    | _, _, _ => none
+  | "m-connect" :: url :: rest =>
+    -- url opts(7) limit usersock sslopt tlsenv urltable proxy dials
+    match rest with
+    | [o1, o2, o3, o4, o5, o6, o7, lim, us, so, te, ut, px, ds] =>
+      match pStr url, pOpts [o1, o2, o3, o4, o5, o6, o7], pOptNat lim, pSock us, pSslOpt so, pTlsEnv te,
+            pUrlTable ut, pProxy px, pList pDial "/" ds with
+      | some url, some o, some lim, some us, some so, some te, some ut, some px, some ds =>
+        let env : Env := {
+          acceptOf := acceptOf
+          parseUrl := fun u => match ut.find? (fun e => e.1 = u) with
+            | some e => e.2
+            | none => .error .valueError
+          proxy := fun _ => px
+          sslopt := so
+          tlsEnv := te }
+        let world : Nat → Dial := fun i => ds.getD i { addr := .error .transport }
+        some (oOut (connect env world url o lim us {}))
+      | _, _, _, _, _, _, _, _, _ => none
+    | _ => none
   | _ => none
 
 end WS.Driver.H2
